@@ -11,7 +11,7 @@
 #include <math.h>
 #include <ufw/register-table.h>
 
-#define RT_MAXAREAS 3
+#define RT_MAXAREAS 8 /* the seeded family has 1-3 areas, curated layouts up to 8 */
 #define RT_MAXREGS 48
 #define RT_MAXWORDS 64 /* per area */
 
@@ -202,6 +202,15 @@ static struct rt_inst *rt_cur;
 static int rt_cb_fail_area = -1, rt_cb_fail_code;
 static uint32_t rt_cb_fail_word;
 static unsigned rt_cb_fail_hits;
+/* the same for reads: reads through the callback of area rt_cb_rfail_area that cover word rt_cb_rfail_word fail */
+static int rt_cb_rfail_area = -1, rt_cb_rfail_code;
+static uint32_t rt_cb_rfail_word;
+static unsigned rt_cb_rfail_hits;
+/* a device that only serves reads inside one window of an area (the words next to it are unimplemented, or have read
+ * side effects): rt_cb_rwin_area >= 0 makes every read of that area that reaches outside [lo, hi) fail */
+static int rt_cb_rwin_area = -1;
+static uint32_t rt_cb_rwin_lo, rt_cb_rwin_hi;
+static unsigned rt_cb_rwin_hits;
 
 /* A device callback may use the register API itself (counting accesses in another table, say) before it looks at
  * the words it was handed: a tiny memory-backed table of the harness' own, with one u32 counter that every
@@ -265,6 +274,19 @@ rt_cb_read(const RegisterArea *a, RegisterAtom *dst, RegisterOffset off, Registe
         return rv;
     }
     rt_nest_access();
+    if (rt_cb_rwin_area == idx && (off < rt_cb_rwin_lo || (uint64_t)off + n > rt_cb_rwin_hi)) {
+        rv.code = REG_ACCESS_IO_ERROR;
+        rv.address = a->base + off;
+        rt_cb_rwin_hits++;
+        return rv;
+    }
+    if (rt_cb_rfail_area == idx && rt_cb_rfail_word >= off && rt_cb_rfail_word < off + n) {
+        /* a device cell that cannot be read */
+        rv.code = (RegisterAccessCode)rt_cb_rfail_code;
+        rv.address = a->base + rt_cb_rfail_word;
+        rt_cb_rfail_hits++;
+        return rv;
+    }
     if (a->mem != NULL)
         memset(a->mem, 0x7e, sizeof(RegisterAtom) * a->size); /* the driver's bounce buffer */
     memcpy(dst, rt_cur->store[idx] + off, n * sizeof(RegisterAtom));
@@ -709,14 +731,14 @@ rt_gen_wellformed(vh_rng *r, struct rt_desc *d, int allow_fail)
  * directly behind, in front of and between populated ones, a long densely packed area next to a register-less
  * one, everything adjacent. Registers are filled from the generator (types by size, constraints, defaults).
  * Returns 0 when k is past the list. */
-#define RT_NCURATED 24
+#define RT_NCURATED 30
 static int
 rt_gen_curated(vh_rng *r, unsigned k, struct rt_desc *d, int allow_fail)
 {
     /* per layout: area sizes (0 ends), which areas stay bare (bit mask), custom mask, big-endian */
     static const struct {
         uint32_t base;
-        uint32_t size[3];
+        uint32_t size[8];
         unsigned bare, custom, be, nowrite, window, zero;
     } L[RT_NCURATED / 2] = {
         { 0, { 4, 4, 0 }, 2u, 0u, 0 },         /* populated, bare */
@@ -730,7 +752,10 @@ rt_gen_curated(vh_rng *r, unsigned k, struct rt_desc *d, int allow_fail)
         { 0, { 16, 5, 0 }, 1u, 1u, 0, 1u, 1u },   /* a reserved window (no callbacks, no memory) at address 0, populated */
         { 1, { 3, 2, 6 }, 2u, 2u, 1, 2u, 2u },    /* populated, reserved window, populated */
         { 0, { 4, 1, 4 }, 2u, 0u, 0, 0u, 0u, 2u }, /* populated, an area of size zero, populated: all at one seam */
-        { 0x100, { 1, 6, 1 }, 5u, 1u, 1, 0u, 0u, 5u } /* zero-sized areas in front of and behind a populated one */
+        { 0x100, { 1, 6, 1 }, 5u, 1u, 1, 0u, 0u, 5u }, /* zero-sized areas in front of and behind a populated one */
+        { 0x10, { 2, 3, 2, 4 }, 0u, 0x5u, 0 },             /* four areas (whatever look-up the library uses over its area list) */
+        { 0x7ffa, { 2, 3, 2, 4, 3 }, 0u, 0xau, 1 },        /* five areas across the 15-bit boundary */
+        { 0xfff0, { 1, 2, 1, 3, 2, 2, 1, 4 }, 0x24u, 0x92u, 0 } /* eight areas, two of them register-less */
     };
     if (k >= RT_NCURATED)
         return 0;
@@ -738,7 +763,7 @@ rt_gen_curated(vh_rng *r, unsigned k, struct rt_desc *d, int allow_fail)
     memset(d, 0, sizeof *d);
     d->bigendian = (int)(L[li].be ^ (k & 1));
     uint32_t cursor = L[li].base;
-    for (int i = 0; i < 3 && L[li].size[i]; i++) {
+    for (int i = 0; i < 8 && L[li].size[i]; i++) {
         struct rt_area *a = &d->area[d->nareas++];
         a->base = cursor;
         a->size = L[li].size[i];
